@@ -52,7 +52,7 @@ MANIFEST = dict(
               "the event log",
 )
 FLOORS = {"C12.1": 10, "C12.2": 14, "C12.3": 80, "C12.4": 10, "C12.5": 4,
-          "C12.6": 2}
+          "C12.6": 2, "C12.7": 12}
 
 PE = "evo.core.metrics.PE"
 ST = "evo.core.metrics.StatisticsType"
@@ -235,6 +235,14 @@ def check(ctx):
 
     _units(ctx)
     _companions(ctx)
+    # the unit named in title/label is the metric's unit attribute: it must be
+    # the unit of the reduction for every relation (C01.3 / C02.6 instances)
+    from ..core import import_rules
+    n = import_rules(ctx, "c01", ("C01.3",), "C12.7",
+                     pred=lambda o: o.key.endswith(":unit"))
+    n += import_rules(ctx, "c02", ("C02.6",), "C12.7",
+                      pred=lambda o: o.key.endswith(":unit"))
+    ctx.require(n >= 12, "C12.7: unit instances not found")
 
 
 def _units(ctx):
